@@ -4,6 +4,12 @@ import json, os, sys, time
 VERIF = os.path.dirname(os.path.dirname(os.path.abspath(__file__)))
 
 
+# rules whose obligations read which error variant is built / which exits of a path are failures: the only ones whose alarms are
+# withdrawn (-> UNDECIDED) when errors travel in a private type converted at the API boundary (`private_error_boundary`)
+ERROR_CLASSIFYING_RULES = {'R02.3', 'R04.4', 'R04.5', 'R05.5', 'R05.7', 'R06.3', 'R06.6', 'R09.4', 'R10.2', 'R10.6', 'R10.7', 'R10.9', 'R12.3', 'R12.5',
+                           'R15.2', 'R15.3', 'R15.4', 'R15.5', 'R15.6', 'R19.1'}
+
+
 class Undecided(Exception):
     """a role or anchor could not be bound / an instance count fell below its floor"""
 
@@ -96,7 +102,12 @@ def private_error_boundary(prog, prop):
         if b.kind not in ('Fn', 'AssocFn') or not any(b.path.lstrip('<').startswith(m) for m in mods):
             continue
         ins = b.j.get('inputs') or []
-        outp = (b.j.get('output') or '').split('<')[0]
+        outp = (b.j.get('output') or '')
+        # (also wrapped: `fn into_pool_error(self) -> Option<PoolError<E>>` - "None = try the next object")
+        for w_ in ('std::option::Option<', 'std::result::Result<(), '):
+            if outp.startswith(w_):
+                outp = outp[len(w_):]
+        outp = outp.split('<')[0].rstrip('>')
         if len(ins) != 1 or not outp.endswith('Error'):
             continue
         src = ins[0].split('<')[0]
